@@ -160,6 +160,11 @@ extern "C" int pthread_mutex_unlock(pthread_mutex_t * m) {
         if ((x & 3) == 0) usleep(300);
     }
     pause_check('U', ++t_cntU);
+    // $VP_MAIN_SLOW=<ms>: the application thread pauses after every mutex release, so the workers run until they park - the
+    // native counterpart of llsym's cooperative schedule (a thread runs until it blocks)
+    static int slow = -1;
+    if (slow < 0) { const char * p = getenv("VP_MAIN_SLOW"); slow = p ? atoi(p) : 0; }
+    if (slow > 0 && t_ord == 0) usleep(static_cast<useconds_t>(slow) * 1000);
     return r;
 }
 extern "C" int pthread_mutex_lock(pthread_mutex_t * m) {
